@@ -208,24 +208,7 @@ RegistryT<ArgsT<TG_, TSL_, TRL_, NCC_, NOC_, NOU_, TRO_ HFSM2_IF_SERIALIZATION(,
 			{
 				requested   = parent.prong;
 			}
-			else {
-				parent = forkParent(parent.forkId);
-				break;
-			}
 		}
-		else
-		if (parent.forkId < 0)
-			requestedOrthoFork(parent.forkId).set(parent.prong);
-		else
-			HFSM2_BREAK();
-	}
-
-	for (;
-		 parent;
-		 parent = forkParent(parent.forkId))
-	{
-		if (parent.forkId > 0)
-			compoRemains.set(parent.forkId - 1);
 		else
 		if (parent.forkId < 0)
 			requestedOrthoFork(parent.forkId).set(parent.prong);
